@@ -99,3 +99,14 @@ Theorem C02_data_series_append_keeps_calculated_candles :
   calculate O I ds = Ok st -> calculate O I (st ++ new) = Ok r -> exists tl, r = st ++ tl.
 Proof. exact data_append_keeps_prefix. Qed.
 Print Assumptions C02_data_series_append_keeps_calculated_candles.
+
+(* on a collapsing timeframe every bucket but the last (open) one keeps its reading and its helper entry *)
+Theorem C02_data_series_closed_buckets_final :
+  forall (O : NumOps) (I : ind O) (key : string), data_node O I key -> data_kind O I key ->
+  forall (tf : Z) (xs ys : list (cd (payload O))) (Dst D' : store O),
+  0 < tf -> Forall (fresh_data O I) (xs ++ ys) ->
+  calculate O I (resample (payload O) (Candle.merge O) tf xs) = Ok Dst ->
+  calculate O I (resample (payload O) (Candle.merge O) tf (xs ++ ys)) = Ok D' ->
+  exists tl, D' = removelast Dst ++ tl.
+Proof. exact data_closed_buckets_final. Qed.
+Print Assumptions C02_data_series_closed_buckets_final.
